@@ -33,7 +33,7 @@ WIRE_COMPONENTS = {
              'TLS itself: "TLS mode" = security.use_tls() true, so no TwistedWrapper; the in-memory transport carries the bytes'],
 }
 
-WIRE_RULE = ('one run = one generated message sequence (1-6 messages of the channel\'s real types, payloads 0 B-70 kB) on one channel in TLS '
+WIRE_RULE = ('one run = 1-8 rounds (cfg rounds), each one generated message sequence (1-6 messages of the channel\'s real types, payloads 0 B-70 kB) on one channel in TLS '
              'or legacy mode, delivered to fresh protocol instances under a set of chunkings (enum: every 1- and 2-cut; handshake: 72 '
              'input combinations x cuts; long/net/client: chooser-chosen) and compared with whole-message delivery; non-trivial = at '
              'least one delivery was cut or coalesced differently from whole-message delivery (batch "whole": at least one message '
@@ -59,27 +59,29 @@ def wire(name, runs_q, runs_t, **cfg):
 
 BATCHES = [
     # fault-free: whole-message delivery end to end (scripted clients and the real client code), valid handshakes
-    wire('fault-free (whole messages)', 600, 12000, mode='whole'),
+    wire('fault-free (whole messages)', 100, 1500, mode='whole', rounds=8),
     # FakePGP against gpg (slow: real key generation; early so that it overlaps with the rest)
     wire('gpg-calibration', 2, 8, mode='gpg', tls=False),
     # ---- reproduction batches of the two genuine defects (silent once the proposed fixes are applied) ----
-    wire('defect: message after a closing message', 80, 2000, mode='enum', after_close=True, defect=True),
-    wire('defect: message after a closing message (SimConn)', 200, 4000, mode='net', after_close=True, defect=True),
-    wire('defect: client handshake under fragmentation', 150, 4000, mode='client', tls=False, steer_client_hs=False, defect=True),
-    # ---- fault batches, steered clear of the two defects ----
+    wire('defect: message after a closing message', 80, 1500, mode='enum', after_close=True, defect=True),
+    wire('defect: message after a closing message (SimConn)', 30, 500, mode='net', after_close=True, defect=True, rounds=8),
+    wire('defect: client handshake under fragmentation', 25, 500, mode='client', tls=False, steer_client_hs=False, defect=True, rounds=8),
+    # ---- fault batches, steered clear of the two defects (cheap ones first: a wall-budget cut then costs the least) ----
+    # real client code under short reads
+    wire('faults: real clients, short reads', 140, 4000, mode='client', rounds=8),
+    # SimConn: chunking, delay, coalescing, delivery order are chooser decisions
+    wire('faults: SimConn scripted clients', 160, 5000, mode='net', rounds=8),
     # every 2-chunk and 3-chunk delivery of short streams
     wire('faults: enum every cut', 320, 12000, mode='enum'),
     # handshake inputs x cuts
     wire('faults: handshake inputs x cuts', 120, 6000, mode='hs', tls=False),
-    # seeded chunkings of long streams
-    wire('faults: long streams', 600, 15000, mode='long', chunkings=32),
-    # SimConn: chunking, delay, coalescing, delivery order are chooser decisions
-    wire('faults: SimConn scripted clients', 1200, 40000, mode='net'),
-    # real client code under short reads
-    wire('faults: real clients, short reads', 1000, 30000, mode='client'),
+    # seeded chunkings of long streams (32 chunkings of each of 4 sequences per run)
+    wire('faults: long streams', 160, 4000, mode='long', chunkings=32, rounds=4),
 ]
 if os.environ.get('VERIF_C14_SKIP_DEFECT_BATCHES'):
-    BATCHES = [b for b in BATCHES if not b['cfg'].get('defect')]
+    for _b in BATCHES:  # zero runs instead of removal: batch indices (stored in replay files) stay what they are
+        if _b['cfg'].get('defect'):
+            _b['runs'] = dict(quick=0, thorough=0)
 
 PROPS = {
     'C14': dict(
